@@ -227,7 +227,7 @@ rule_instance!(c09_weekly_4, 4, Rule::Weekly, false);
 // three snapshots does not get through symbolic execution in 30 min - B-tree clone/drop of the empty
 // StringLists inside each SnapshotFile, see DESIGN 11)
 // ---------------------------------------------------------------------------
-fn predicates_check(which: u8) {
+fn two_snaps() -> (Civ, Civ, SnapshotFile, SnapshotFile) {
     let c0 = any_civ();
     let c1 = any_civ();
     store(0, &c0);
@@ -235,30 +235,35 @@ fn predicates_check(which: u8) {
     kani::assume(civ_key(&c0) >= civ_key(&c1));
     let s0 = snap(time_of(0, &c0), 0);
     let s1 = snap(time_of(1, &c1), 1);
-    if which == 0 {
-        assert!(equal_minute(&s0, &s1) == same_period(Rule::Minutely, &c0, &c1));
-        assert!(equal_hour(&s0, &s1) == same_period(Rule::Hourly, &c0, &c1));
-        assert!(equal_day(&s0, &s1) == same_period(Rule::Daily, &c0, &c1));
-        assert!(equal_month(&s0, &s1) == same_period(Rule::Monthly, &c0, &c1));
-        assert!(equal_quarter_year(&s0, &s1) == same_period(Rule::Quarterly, &c0, &c1));
-        assert!(equal_half_year(&s0, &s1) == same_period(Rule::HalfYearly, &c0, &c1));
-        assert!(equal_year(&s0, &s1) == same_period(Rule::Yearly, &c0, &c1));
-        // symmetric
-        assert!(equal_minute(&s1, &s0) == equal_minute(&s0, &s1));
-        assert!(!always_false(&s0, &s1));
-        kani::cover!(same_period(Rule::Hourly, &c0, &c1) && !same_period(Rule::Minutely, &c0, &c1), "same hour, different minute");
-        kani::cover!(same_period(Rule::Daily, &c0, &c1) && c0.h != c1.h && c0.mi == c1.mi, "same day and minute-of-hour, different hour");
-        kani::cover!(same_period(Rule::HalfYearly, &c0, &c1) && !same_period(Rule::Quarterly, &c0, &c1), "same half year, different quarter");
-    } else {
-        assert!(equal_week(&s0, &s1) == same_period(Rule::Weekly, &c0, &c1));
-        assert!(equal_week(&s1, &s0) == equal_week(&s0, &s1));
-        kani::cover!(c0.y != c1.y && same_period(Rule::Weekly, &c0, &c1), "one ISO week across a calendar-year edge");
-        kani::cover!(c0.y == c1.y && c0.w == c1.w && c0.wy != c1.wy, "same calendar year and week number, different ISO week-years");
-    }
+    (c0, c1, s0, s1)
+}
+fn predicates_check_civil() {
+    let (c0, c1, s0, s1) = two_snaps();
+    assert!(equal_minute(&s0, &s1) == same_period(Rule::Minutely, &c0, &c1));
+    assert!(equal_hour(&s0, &s1) == same_period(Rule::Hourly, &c0, &c1));
+    assert!(equal_day(&s0, &s1) == same_period(Rule::Daily, &c0, &c1));
+    assert!(equal_month(&s0, &s1) == same_period(Rule::Monthly, &c0, &c1));
+    assert!(equal_quarter_year(&s0, &s1) == same_period(Rule::Quarterly, &c0, &c1));
+    assert!(equal_half_year(&s0, &s1) == same_period(Rule::HalfYearly, &c0, &c1));
+    assert!(equal_year(&s0, &s1) == same_period(Rule::Yearly, &c0, &c1));
+    // symmetric
+    assert!(equal_minute(&s1, &s0) == equal_minute(&s0, &s1));
+    assert!(!always_false(&s0, &s1));
+    kani::cover!(same_period(Rule::Hourly, &c0, &c1) && !same_period(Rule::Minutely, &c0, &c1), "same hour, different minute");
+    kani::cover!(same_period(Rule::Daily, &c0, &c1) && c0.h != c1.h && c0.mi == c1.mi, "same day and minute-of-hour, different hour");
+    kani::cover!(same_period(Rule::HalfYearly, &c0, &c1) && !same_period(Rule::Quarterly, &c0, &c1), "same half year, different quarter");
+    std::mem::forget(s0); std::mem::forget(s1);
+}
+fn predicates_check_week() {
+    let (c0, c1, s0, s1) = two_snaps();
+    assert!(equal_week(&s0, &s1) == same_period(Rule::Weekly, &c0, &c1));
+    assert!(equal_week(&s1, &s0) == equal_week(&s0, &s1));
+    kani::cover!(c0.y != c1.y && same_period(Rule::Weekly, &c0, &c1), "one ISO week across a calendar-year edge");
+    kani::cover!(c0.y == c1.y && c0.w == c1.w && c0.wy != c1.wy, "same calendar year and week number, different ISO week-years");
     std::mem::forget(s0); std::mem::forget(s1);
 }
 macro_rules! pred_instance {
-    ($name:ident, $which:expr) => {
+    ($name:ident, $which:ident) => {
         #[kani::proof]
         #[kani::unwind(5)]
         #[kani::stub(std::backtrace::Backtrace::capture, crate::error::verif_harness::stub_backtrace_capture)]
@@ -270,7 +275,7 @@ macro_rules! pred_instance {
         #[kani::stub(jiff::Zoned::iso_week_date, st_iso_week_date)]
         #[kani::stub(jiff::civil::ISOWeekDate::year, st_iso_year)]
         #[kani::stub(jiff::civil::ISOWeekDate::week, st_iso_week)]
-        pub(crate) fn $name() { predicates_check($which); }
+        pub(crate) fn $name() { $which(); }
     };
 }
 //@ instance: c09_period_predicates c09_week_predicate
@@ -287,5 +292,87 @@ macro_rules! pred_instance {
 //@ assume: jiff's accessors agree with the proleptic Gregorian / ISO-8601 calendar (jiff is trusted)
 //@ outside: the counting logic of KeepOptions::matches/apply (thorough-tier harnesses c09_*_3, which do not finish within their cap - recorded as inconclusive, not as proved), keep-within variants, tags/ids, delete marks, grouping
 //@ replay: twin
-pred_instance!(c09_period_predicates, 0);
-pred_instance!(c09_week_predicate, 1);
+pred_instance!(c09_period_predicates, predicates_check_civil);
+pred_instance!(c09_week_predicate, predicates_check_week);
+
+// ---------------------------------------------------------------------------
+// counting logic: ONE call of KeepOptions::matches from an arbitrary counter state (inductive step of
+// "the first n candidates of each rule are kept"; apply() calls matches() once per snapshot, newest first)
+// ---------------------------------------------------------------------------
+fn any_counter() -> Option<i32> {
+    if kani::any() { let n: i32 = kani::any(); kani::assume(n >= -1 && n <= 2); Some(n) } else { None }
+}
+
+//@ harness: c09_matches_step
+//@ prop: C09
+//@ tier: quick
+//@ timeout: 1800
+//@ mem: 16
+//@ unwindset: binary_search_by=12; ^memcmp#0=70; encode_to|to_hex|hex=70; KeepOptions.*matches=11; c09_matches_step=11
+//@ kernel: KeepOptions::matches (counter bookkeeping for keep-last and the eight period rules, keep-ids), the period predicates, always_false
+//@ bound: one call for a snapshot and its newer neighbour (both with arbitrary valid civil times in 2014..=2021, or no neighbour), symbolic has_next flag, all nine counters symbolic in {unset, -1, 0, 1, 2}, keep-ids empty / matching the snapshot / matching another id; keep-within and keep-tags unset
+//@ oracle: for every rule: the snapshot is a candidate iff it has no newer neighbour, or is the oldest (no next), or lies in another period than its neighbour (keep-last: always); a candidate is kept by that rule iff the rule's counter is not 0, and exactly then a positive counter is decremented by one (-1 stays); a matching keep-id keeps the snapshot without changing how the counters move; the number of reasons equals the number of applicable rules
+//@ stub: jiff accessors -> symbolic civil table (as c09_period_predicates); Backtrace::capture
+//@ assume: jiff's accessors agree with the calendar
+//@ outside: keep-within* (Span arithmetic), keep-tags (BTreeSet<String> matching), apply()'s sort / delete marks / delete-unchanged (experimental c09_*_3)
+//@ replay: twin
+#[kani::proof]
+#[kani::unwind(5)]
+#[kani::stub(std::backtrace::Backtrace::capture, crate::error::verif_harness::stub_backtrace_capture)]
+#[kani::stub(jiff::Zoned::year, st_year)]
+#[kani::stub(jiff::Zoned::month, st_month)]
+#[kani::stub(jiff::Zoned::day_of_year, st_doy)]
+#[kani::stub(jiff::Zoned::hour, st_hour)]
+#[kani::stub(jiff::Zoned::minute, st_minute)]
+#[kani::stub(jiff::Zoned::iso_week_date, st_iso_week_date)]
+#[kani::stub(jiff::civil::ISOWeekDate::year, st_iso_year)]
+#[kani::stub(jiff::civil::ISOWeekDate::week, st_iso_week)]
+pub(crate) fn c09_matches_step() {
+    let c_new = any_civ();
+    let c_sn = any_civ();
+    store(0, &c_new);
+    store(1, &c_sn);
+    kani::assume(civ_key(&c_new) >= civ_key(&c_sn));
+    let newer = snap(time_of(0, &c_new), 0x11);
+    let sn = snap(time_of(1, &c_sn), 0xab);
+    let latest = time_of(0, &c_new);
+    let has_last: bool = kani::any();
+    let has_next: bool = kani::any();
+    let mut keep = KeepOptions::default();
+    keep.keep_last = any_counter();
+    keep.keep_minutely = any_counter();
+    keep.keep_hourly = any_counter();
+    keep.keep_daily = any_counter();
+    keep.keep_weekly = any_counter();
+    keep.keep_monthly = any_counter();
+    keep.keep_quarter_yearly = any_counter();
+    keep.keep_half_yearly = any_counter();
+    keep.keep_yearly = any_counter();
+    let ids_mode: u8 = kani::any();
+    kani::assume(ids_mode < 3);
+    if ids_mode == 1 { keep.keep_ids = vec!["ab".to_string()]; }
+    if ids_mode == 2 { keep.keep_ids = vec!["cd".to_string()]; }
+    let before = [keep.keep_last, keep.keep_minutely, keep.keep_hourly, keep.keep_daily, keep.keep_weekly, keep.keep_monthly, keep.keep_quarter_yearly, keep.keep_half_yearly, keep.keep_yearly];
+    let n_reasons = keep.matches(&sn, if has_last { Some(&newer) } else { None }, has_next, &latest).len();
+    let after = [keep.keep_last, keep.keep_minutely, keep.keep_hourly, keep.keep_daily, keep.keep_weekly, keep.keep_monthly, keep.keep_quarter_yearly, keep.keep_half_yearly, keep.keep_yearly];
+    let rules = [None, Some(Rule::Minutely), Some(Rule::Hourly), Some(Rule::Daily), Some(Rule::Weekly), Some(Rule::Monthly), Some(Rule::Quarterly), Some(Rule::HalfYearly), Some(Rule::Yearly)];
+    let mut want = if ids_mode == 1 { 1usize } else { 0 };
+    let mut k = 0;
+    while k < 9 {
+        let same = match rules[k] { None => false, Some(r) => same_period(r, &c_sn, &c_new) };
+        let cand = !has_next || !has_last || !same;
+        match before[k] {
+            None => assert!(after[k].is_none()),
+            Some(n) => {
+                if cand && n != 0 { want += 1; }
+                let expect = if cand && n > 0 { n - 1 } else { n };
+                assert!(after[k] == Some(expect));
+            }
+        }
+        k += 1;
+    }
+    assert!(n_reasons == want);
+    kani::cover!(ids_mode == 1 && before[0] == Some(1), "kept by id while keep-last still has a slot");
+    kani::cover!(has_last && has_next && want == 0, "a snapshot no rule keeps");
+    std::mem::forget(keep); std::mem::forget(sn); std::mem::forget(newer); std::mem::forget(latest);
+}
